@@ -93,6 +93,21 @@ def check(ctx):
             for k in range(per):
                 n = C.rng.randint(2 if name == 'brown' else 1, 7)
                 pts.append(('random', [C.rng.uniform(lo, hi) for _ in range(n)]))
+            # long vectors (products, sums and powers over hundreds of coordinates stay what the formula says while the
+            # formula is finite) and tiny non-zero coordinates next to ordinary ones (harmless underflow)
+            for n in ((64, 343, 400) if ctx['tier'] == 'quick' else (64, 257, 343, 400, 600, 1000)):
+                if name in COHERENT and COHERENT[name][1] is not None:
+                    pts.append(('long-minimiser', COHERENT[name][1](n)))
+                pts.append(('long', [C.rng.uniform(lo, hi) for _ in range(n)]))
+                pts.append(('long', [C.rng.uniform(lo + 0.6 * (hi - lo), hi) for _ in range(n)]))
+            for tiny in (3e-10, 1e-40, 1e-78, 1e-160, 5e-324):
+                if not (lo <= tiny <= hi):
+                    continue
+                for other in (hi, 0.5 * (lo + hi), min(hi, max(lo, 1.0)), min(hi, max(lo, 2.0))):
+                    pts.append(('tiny', [tiny, other]))
+                    pts.append(('tiny', [other, tiny, other]))
+                    if lo <= -tiny:
+                        pts.append(('tiny', [-tiny, other, tiny]))
             ok_pts = []
             for tag, x in pts:
                 try:
